@@ -24,14 +24,15 @@ func (r Result) String() string {
 
 // Stats are cumulative per solver process wrapper.
 type Stats struct {
-	Queries  int
-	Sat      int
-	Unsat    int
-	Unknown  int
-	Errors   int
-	Restarts int
-	Seconds  float64
-	MaxQuery float64
+	Fallbacks int // unknown in the incremental session, decided by a fresh one-shot solver run
+	Queries   int
+	Sat       int
+	Unsat     int
+	Unknown   int
+	Errors    int
+	Restarts  int
+	Seconds   float64
+	MaxQuery  float64
 }
 
 type Solver struct {
@@ -47,6 +48,9 @@ type Solver struct {
 	Log       io.Writer // optional transcript
 	depth     int
 	LastError string
+	decls     []string
+	frames    [][]string // live assertions per push level
+	lastFlat  string     // flattened script of the last fallback-decided sat query
 }
 
 // NewZ3 starts `z3 -in`.
@@ -168,22 +172,88 @@ func (s *Solver) Close() {
 func (s *Solver) Reset() {
 	s.send("(reset)")
 	s.depth = 0
+	s.decls = nil
+	s.frames = [][]string{nil}
+	s.lastFlat = ""
 	s.preamble()
 }
 
 func (s *Solver) Declare(name string, sort Sort) {
-	s.send(fmt.Sprintf("(declare-const %s %s)", quoteName(name), sort))
+	d := fmt.Sprintf("(declare-const %s %s)", quoteName(name), sort)
+	s.decls = append(s.decls, d)
+	s.send(d)
 }
 
 func (s *Solver) Assert(t *Term) {
 	if t.IsConst && t.U != 0 {
 		return
 	}
-	s.send("(assert " + t.S + ")")
+	a := "(assert " + t.S + ")"
+	if len(s.frames) == 0 {
+		s.frames = [][]string{nil}
+	}
+	s.frames[len(s.frames)-1] = append(s.frames[len(s.frames)-1], a)
+	s.send(a)
 }
 
-func (s *Solver) Push() { s.send("(push 1)"); s.depth++ }
-func (s *Solver) Pop()  { s.send("(pop 1)"); s.depth-- }
+func (s *Solver) Push() { s.send("(push 1)"); s.depth++; s.frames = append(s.frames, nil) }
+func (s *Solver) Pop() {
+	s.send("(pop 1)")
+	s.depth--
+	if len(s.frames) > 1 {
+		s.frames = s.frames[:len(s.frames)-1]
+	}
+}
+
+// flatten renders declarations and live assertions as a stand-alone script.
+func (s *Solver) flatten() string {
+	var b strings.Builder
+	for _, d := range s.decls {
+		b.WriteString(d)
+		b.WriteByte('\n')
+	}
+	for _, fr := range s.frames {
+		for _, a := range fr {
+			b.WriteString(a)
+			b.WriteByte('\n')
+		}
+	}
+	return b.String()
+}
+
+// fallback decides the current query with fresh non-incremental solver runs
+// (full preprocessing often settles what the incremental core cannot).
+func (s *Solver) fallback(extra string) (Result, string) {
+	script := s.flatten()
+	for _, cmd := range [][]string{{"z3", "-T:60", "-in"}, {"z3-new", "-T:60", "-in"}, {"cvc5", "--lang=smt2", "--strings-exp", "--produce-models", "--tlimit=60000"}} {
+		full := script + "(check-sat)\n" + extra
+		if cmd[0] != "z3" {
+			full = "(set-logic ALL)\n" + full
+		}
+		if cmd[0] == "z3" || cmd[0] == "z3-new" {
+			full = "(set-option :produce-models true)\n" + full
+		}
+		c := exec.Command(cmd[0], cmd[1:]...)
+		c.Stdin = strings.NewReader(full)
+		out, _ := c.CombinedOutput()
+		txt := string(out)
+		if strings.Contains(txt, "(error") && !strings.HasPrefix(strings.TrimSpace(txt), "sat") && !strings.HasPrefix(strings.TrimSpace(txt), "unsat") {
+			continue
+		}
+		first := strings.TrimSpace(strings.SplitN(strings.TrimSpace(txt), "\n", 2)[0])
+		switch first {
+		case "unsat":
+			return Unsat, ""
+		case "sat":
+			rest := ""
+			if k := strings.Index(txt, "\n"); k >= 0 {
+				rest = txt[k+1:]
+			}
+			return Sat, rest
+		}
+	}
+	return Unknown, ""
+}
 
 // Check runs (check-sat). Any "(error" line makes the answer Unknown.
 func (s *Solver) Check() Result {
@@ -224,6 +294,16 @@ func (s *Solver) Check() Result {
 		s.Stats.Unknown++
 		s.LastError = "no verdict: " + strings.Join(lines, " | ")
 		return Unknown
+	}
+	s.lastFlat = ""
+	if res == Unknown {
+		if r, _ := s.fallback(""); r != Unknown {
+			s.Stats.Fallbacks++
+			res = r
+			if r == Sat {
+				s.lastFlat = "sat"
+			}
+		}
 	}
 	switch res {
 	case Sat:
@@ -275,6 +355,13 @@ func (s *Solver) Model(vars []*Term) (map[string]ModelVal, error) {
 		b.WriteByte(' ')
 	}
 	b.WriteString("))")
+	if s.lastFlat != "" {
+		r, out := s.fallback(b.String() + "\n")
+		if r != Sat {
+			return nil, fmt.Errorf("fallback solver lost the model")
+		}
+		return parseModel(out, vars)
+	}
 	s.send(b.String())
 	lines, ok := s.sync()
 	if !ok {
@@ -282,6 +369,11 @@ func (s *Solver) Model(vars []*Term) (map[string]ModelVal, error) {
 		return nil, fmt.Errorf("solver did not answer get-value")
 	}
 	txt := strings.Join(lines, "\n")
+	return parseModel(txt, vars)
+}
+
+func parseModel(txt string, vars []*Term) (map[string]ModelVal, error) {
+	res := map[string]ModelVal{}
 	if strings.Contains(txt, "(error") {
 		return nil, fmt.Errorf("get-value: %s", txt)
 	}
